@@ -943,7 +943,7 @@ class ArmV6:
                     walkaddr.memattrs.shareable = bit_at(self.registers.ttbcr.sh0, 1)
                     walkaddr.memattrs.outershareable = self.registers.ttbcr.sh0 == 0b10
                 t1_size = self.registers.ttbcr.t1sz
-                if (t1_size == 0 and not base_found) or is_ones(substring(ia, 31, 32 - t1_size), t1_size):
+                if (t1_size == 0 and not base_found) or (t1_size > 0 and is_ones(substring(ia, 31, 32 - t1_size), t1_size)):
                     current_level = 1 if substring(self.registers.ttbcr.t1sz, 2, 1) == 0b00 else 2
                     ba_lower_bound = 9 * current_level - t1_size - 4
                     base_address = substring(self.registers.ttbr1_64, 39, ba_lower_bound) << ba_lower_bound
